@@ -40,10 +40,35 @@ Definition key_eqb (a b : str * str) : bool := beqb (fst a) (fst b) && beqb (snd
 Definition holder_of (hs : list ((str * str) * nat)) (k : str * str) : option nat :=
   match find (fun p => key_eqb (fst p) k) hs with Some p => Some (snd p) | None => None end.
 
-(* the object lock a request takes (the parsed destination for compose and copy) *)
-Definition lock_key (r : req) : option (str * str) :=
+(* a resumable PUT reaches finishUpload (and there the object lock of the session's object) iff the
+   session exists, the Content-Range parses and fits, the upload is complete and the declared MD5 is
+   not refused; everything before that point touches only the session *)
+Definition resumable_target (s : state) (id : str) (crange : option str) (data : bytes) : option (str * str) :=
+  match alookup id (s_uploads s), crange with
+  | Some u, Some cr =>
+      match parse_byte_range cr with
+      | Some br =>
+          match resume_apply (up_data u) br data with
+          | Some data' =>
+              if resume_done br data'
+              then match up_md5 u with
+                   | 2%N | 3%N => None
+                   | _ => Some (up_bucket u, up_name u)
+                   end
+              else None
+          | None => None
+          end
+      | None => None
+      end
+  | _, _ => None
+  end.
+
+(* the object lock a request takes (the parsed destination for compose and copy; the session's
+   object for the PUT that completes a resumable upload) *)
+Definition lock_key (s : state) (r : req) : option (str * str) :=
   match r with
   | RUploadMedia b n _ _ _ => Some (b, n)
+  | RResumablePut id crange data => resumable_target s id crange data
   | RUploadMultipart b m _ _ => Some (b, um_name m)
   | RDelete b n _ => Some (b, n)
   | RPatch b n _ _ => Some (b, n)
@@ -117,7 +142,7 @@ Definition gstep (st : gstate) (i : nat) : gstate * outcome :=
           (mkGState s' (release (g_holders st) i) (upd_nth (g_threads st) i (mkGThread rest GNew)), ODone rsp) in
       match gt_prog th with
       | GNew =>
-          match lock_key r with
+          match lock_key s r with
           | None => let '(s', rsp) := handle s r in finish s' rsp       (* reads, bucket ops, bad paths *)
           | Some k =>
               (* checks made before taking the lock: preconditions that do not parse, declared MD5 *)
@@ -145,7 +170,7 @@ Definition gstep (st : gstate) (i : nat) : gstate * outcome :=
               end
           end
       | GHold cap =>
-          match r, cap, lock_key r with
+          match r, cap, lock_key s r with
           | RCompose _ _ _ _ _ _, Some o, Some k =>
               (* store what was assembled before the yield, with a generation from the clock NOW *)
               let s' := store_add s (fst k) (snd k) (o_data o) (o_ctype o) (o_md5 o) (o_meta o) in
